@@ -387,17 +387,30 @@ func (r *faultReader) Read(p []byte) (int, error) {
 
 func c08FaultGen(t *rapid.T) interface{} {
 	return &c08Fault{In: genC08Input(t), FailAfter: lib.IntN(t, 0, 60000, "failAfter"), WithData: lib.Bool(t, "withData"),
-		Chunk: lib.PickInt(t, c08Chunks, "chunk"), Kind: lib.IntN(t, 0, 2, "errKind")}
+		Chunk: lib.PickInt(t, c08Chunks, "chunk"), Kind: lib.IntN(t, 0, 5, "errKind")}
 }
 
+// errors that merely wrap or mention EOF are not io.EOF: the io.Reader contract has callers compare with ==
+var (
+	errWrapsEOF    = fmt.Errorf("connection reset by peer: %w", io.EOF)
+	errWrapsUnexp  = fmt.Errorf("short body: %w", io.ErrUnexpectedEOF)
+	errMentionsEOF = errors.New("EOF")
+)
+
 func c08Err(kind int) error {
-	switch kind % 3 {
+	switch kind % 6 {
 	case 0:
 		return errInjected
 	case 1:
 		return io.ErrClosedPipe
-	default:
+	case 2:
 		return io.ErrNoProgress
+	case 3:
+		return errWrapsEOF
+	case 4:
+		return errWrapsUnexp
+	default:
+		return errMentionsEOF
 	}
 }
 
@@ -567,7 +580,7 @@ func TestVerif_C08_Fragmentation(t *testing.T) {
 
 func TestVerif_C08_Faults(t *testing.T) {
 	lib.Run(t, lib.Spec{ID: "C08", Part: "faults",
-		Rule: "same inputs; the reader fails with one of three non-EOF errors after a drawn number of bytes (optionally returning a byte together with the error, sticky afterwards); oracle: MatchFrom returns exactly that error and zero Results, no panic; non-trivial = failure after at least one byte",
+		Rule: "same inputs; the reader fails with one of six non-EOF errors (three of them wrap or mention EOF without being io.EOF) after a drawn number of bytes (optionally returning a byte together with the error, sticky afterwards); oracle: MatchFrom returns exactly that error and zero Results, no panic; non-trivial = failure after at least one byte",
 		New:  func() interface{} { return &c08Fault{} }, Gen: c08FaultGen, Check: c08FaultCheck})
 }
 
